@@ -16,7 +16,7 @@ class BaseModel(pydantic.BaseModel):
 
     def replace(self, **updated_fields: Any) -> Self:
         """Return a new instance with updated fields."""
-        fields = self.model_dump(mode="json", by_alias=False, exclude_unset=True)
+        fields = self.model_dump(mode="json", by_alias=True, exclude_unset=True)
         fields |= updated_fields
         return self.__class__(**fields)
 
